@@ -50,8 +50,9 @@ def w_single_guarded_writer(F, X, rep):
     writes, regions = cell_writes(F, X)
     rep.anchor(rid, "guard regions of the Mutex<u32> height cell", len(regions), 2)
     rep.anchor(rid, "writes through the height cell's guard", len(writes), 1)
-    ok = len(writes) == 1
-    rep.ob(rid, ok, "crate", "single write site", where=loc(writes[0][2]["sp"]) if writes else "", how="%d" % len(writes), detail="" if ok else "the height cell is written at %d sites" % len(writes))
+    usites = sorted({loc(w[2]["sp"]) for w in writes})
+    rep.notes.append("%s: %d write site(s) of the height cell after splicing helpers into their callers (%d distinct source location(s): %s); every one must be monotone"
+             % (rid, len(writes), len(usites), ", ".join(usites)))
     for b, r in regions:
         ys = [y for y in b.yields() if y in r.blocks]
         rep.ob(rid, not ys, F.root_of(b), "no await while the height guard is held", where=loc(b.term(r.def_blocks[0])["sp"]), how="no Yield in region", detail="" if not ys else "height guard held across an await")
@@ -69,11 +70,7 @@ def w_single_guarded_writer(F, X, rep):
             if not ok:
                 why = "height written as %s" % show(val)[:80]
         else:
-            for cnd, truth in lib.dominating_conditions(b, bi):
-                if cnd.kind != "cmp":
-                    continue
-                ea, eb = strip(X.operand(b, cnd.a)), strip(X.operand(b, cnd.b))
-                op = cnd.op if truth else {"Lt": "Ge", "Le": "Gt", "Gt": "Le", "Ge": "Lt", "Eq": "Ne", "Ne": "Eq"}[cnd.op]
+            for ea, op, eb, cbb in lib.order_facts(b, X, bi):
                 if _is_cell_read(eb) and show(ea) == show(val) and op in ("Gt", "Ge"):
                     ok = True
                 elif _is_cell_read(ea) and show(eb) == show(val) and op in ("Lt", "Le"):
@@ -84,7 +81,7 @@ def w_single_guarded_writer(F, X, rep):
                     # the compared cell read happens through the very guard that is written through
                     cell = eb if _is_cell_read(eb) else ea
                     gsite = _lock_sites(strip(X.local(b, r.local)))
-                    ok = cnd.bb in r.blocks and _lock_sites(cell) == gsite and len(gsite) == 1
+                    ok = cbb in r.blocks and _lock_sites(cell) == gsite and len(gsite) == 1
                     if not ok:
                         why = "the comparison reads the cell under a different lock acquisition than the write"
                     break
@@ -104,37 +101,53 @@ def _lock_sites(e):
     return sorted({x[1][3][1] for x in walk(e) if x[0] == "await" and x[1][0] == "call" and x[1][1] == "tokio::sync::Mutex::lock"})
 
 
+def _height_kind(F, X, e, depth=0):
+    """classify the provenance of a written height: every alternative must be a reported height"""
+    import model_msgs as mm
+    kinds = set()
+    for x in alts(e):
+        if x[0] == "field" and x[1] == "blockheight" and any(y[0] == "call" and y[1] == "rpc::ClnRpc::get_info" for y in walk(x)):
+            kinds.add("getinfo.blockheight")
+        elif x[0] == "field" and x[1] == "height" and x[2] == "messages::BlockAdded":
+            kinds.add("block_added.height")
+        elif x[0] == "call" and x[1] in ("std::cmp::max", "std::cmp::Ord::max") and len(x[2]) == 2 and any(_is_plain_cell_read(a) for a in x[2]):
+            for a in x[2]:
+                if not _is_plain_cell_read(a):
+                    kinds |= _height_kind(F, X, a, depth + 1)
+        elif x[0] == "param" and depth < 4:
+            # a parameter of a function that is called from elsewhere: every caller's argument
+            sites = [c for c in F.callers.get(x[1], []) if not c.noise]
+            root = x[1]
+            if not sites and "::{closure" in root:
+                root = root[:root.index("::{closure")]
+                sites = [c for c in F.callers.get(root, []) if not c.noise]
+            if not sites:
+                kinds.add(None)
+            for c in sites:
+                if x[2] - 1 < len(c.args):
+                    kinds |= _height_kind(F, X, strip(X.operand(c.body, c.args[x[2] - 1])), depth + 1)
+                else:
+                    kinds.add(None)
+        else:
+            kinds.add(None)
+    return kinds
+
+
 def s_sources(F, X, rep):
     rid = "C20-S"
-    rep.rule(rid, "startup query, periodic poll and block_added reach the cell only as the `new` argument of the update function; the provider impl only reads")
+    rep.rule(rid, "every value written to the cell is a reported height (getinfo.blockheight of the startup query / periodic poll, or block_added.height); both sources are wired; the provider impl only reads")
     writes, regions = cell_writes(F, X)
-    if not writes:
-        rep.anchor(rid, "update function", 0)
+    if not rep.anchor(rid, "writes through the height cell's guard", len(writes), 1):
         return
-    upd = F.root_of(writes[0][0])
-    # which parameter is `new`
-    val = strip(X.rvalue(writes[0][0], writes[0][2]["rv"], ("", 0, ""), 0))
-    pidx = None
-    for x in walk(val):
-        if x[0] == "param":
-            pidx = x[2]
-    calls = [c for c in F.callers.get(upd, []) if not c.noise]
-    rep.anchor(rid, "callers of the update function", len(calls), 2)
     kinds = set()
-    for c in calls:
-        if pidx is None or pidx - 1 >= len(c.args):
-            continue
-        e = strip(X.operand(c.body, c.args[pidx - 1]))
-        k = None
-        if all(x[0] == "field" and x[1] == "blockheight" and any(y[0] == "call" and y[1] == "rpc::ClnRpc::get_info" for y in walk(x)) for x in alts(e)):
-            k = "getinfo.blockheight"
-        elif all(x[0] == "field" and x[1] == "height" and x[2] == "messages::BlockAdded" for x in alts(e)):
-            k = "block_added.height"
-        rep.ob(rid, k is not None, F.root_of(c.body), "update argument is a reported height", where=c.loc, how=str(k), detail="" if k else "the height cell is updated with %s" % show(e)[:80])
-        if k:
-            kinds.add(k)
+    for b, bi, s_, r in writes:
+        val = strip(X.rvalue(b, s_["rv"], (b.cdef, bi, ""), 0))
+        ks = _height_kind(F, X, val)
+        okk = None not in ks and bool(ks)
+        rep.ob(rid, okk, F.root_of(b), "written value is a reported height", where=loc(s_["sp"]), how=str(sorted(k for k in ks if k)), detail="" if okk else "the height cell is updated with %s" % show(val)[:80])
+        kinds |= {k for k in ks if k}
     ok = kinds == {"getinfo.blockheight", "block_added.height"}
-    rep.ob(rid, ok, upd, "both sources feed the update function", how=str(sorted(kinds)), detail="" if ok else "height sources wired to the cell: %s" % sorted(kinds))
+    rep.ob(rid, ok, "crate", "both sources feed the cell", how=str(sorted(kinds)), detail="" if ok else "height sources wired to the cell: %s" % sorted(kinds))
     # BlockProvider impl: returns the cell's value
     n = 0
     for imp in F.impls:
@@ -158,10 +171,9 @@ def l_poll_loop(F, X, rep):
         if not b.coroutine:
             continue
         sels = ml.selects(b, X)
-        gi = [c for c in b.calls if not c.noise and (lib.may_effects(F, c.resolved or c.name).get("HEIGHT") if ((c.resolved or c.name) in F.fns) else False)]
+        gi = [c for c in b.calls if not c.noise and _height_call(F, c)]
         if sels and gi and any(f is not None and f.name == "tokio::time::sleep" for s in sels for f in (s.futures or [])):
-            if F.root_of(b).startswith("block_watcher"):
-                loops.append((b, sels[0], gi))
+            loops.append((b, sels[0], gi))
     if not rep.anchor(rid, "polling loop (select over sleep / shutdown + poll call)", len(loops), 1):
         return
     b, sel, polls = loops[0]
@@ -186,13 +198,12 @@ def l_poll_loop(F, X, rep):
         skip = sel.switch_bb in b.reach([sl[1]], removed_nodes=[p.bb])
         rep.ob(rid, not skip, fn, "every timer expiry polls the node", where=p.loc, how="select unreachable from the timer arm without the poll",
                detail="" if not skip else "an iteration of the poll loop can skip the getinfo poll: lost notifications are not repaired within one interval")
-        ar = ml.arms_of_result(b, X, p)
-        if ar:
-            for name, tg in ar[1].items():
-                okk = sel.switch_bb in b.reach([tg]) and not [r for r in rets if r in b.reach([tg], removed_nodes=[sel.switch_bb])]
-                rep.ob(rid, okk, fn, "poll result %s continues the loop" % name, where=p.loc, how="select reachable, no return before it", detail="" if okk else "a poll result of %s ends the loop" % name)
-        else:
-            rep.ob(rid, False, fn, "poll result is matched", where=p.loc, detail="anchor-missing: match on the poll result")
+        # whatever the poll (and everything after it) yields, control returns to the select: no return is reachable
+        # from the poll without passing the select again
+        esc = [r for r in rets if r in b.reach([p.bb], removed_nodes=[sel.switch_bb])]
+        okk = sel.switch_bb in b.reach([p.bb]) and not esc
+        rep.ob(rid, okk, fn, "every poll outcome continues the loop", where=p.loc, how="select reachable, no return before it",
+               detail="" if okk else "a poll outcome ends the loop (return at %s reachable without passing the select)" % (loc(b.term(esc[0])["sp"]) if esc else "?"))
     slc = sel.futures[sl[0]]
     e = strip(X.operand(b, slc.args[0]))
     const = None
@@ -207,7 +218,7 @@ def l_poll_loop(F, X, rep):
             if c.name == "tokio::spawn" and c.args:
                 ee = strip(X.operand(bb, c.args[0]))
                 if any(x[0] == "call" and x[1] == fn for x in walk(ee)):
-                    first = [x for x in bb.calls if not x.noise and x.bb != c.bb and ((x.resolved or x.name) in F.fns) and lib.may_effects(F, x.resolved or x.name).get("HEIGHT") and bb.dominates(x.bb, c.bb)]
+                    first = [x for x in bb.calls if not x.noise and x.bb != c.bb and _height_call(F, x) and bb.dominates(x.bb, c.bb)]
                     okk = False
                     for x in first:
                         for fe, truth, cc in R.dom_enum_facts(bb, X, c.bb):
@@ -217,6 +228,14 @@ def l_poll_loop(F, X, rep):
                             if R.is_await_of(fe, x) and truth == ("Ok",):
                                 okk = True
                     rep.ob(rid, okk, F.root_of(bb), "loop spawned after a successful initial poll", where=c.loc, how="dominated by the Ok/Continue arm of the initial poll", detail="" if okk else "the poll loop is started without a successful initial height query")
+
+
+def _height_call(F, c):
+    """a call that queries the node for its height: the RPC itself or a local function that (transitively) does"""
+    if "HEIGHT" in lib.call_effects(c) and not c.is_trait_method("block_watcher::BlockProvider"):
+        return True
+    cal = c.resolved or c.name
+    return cal in F.fns and bool(lib.may_effects(F, cal).get("HEIGHT"))
 
 
 def h_subscription(F, X, rep):
@@ -234,10 +253,11 @@ def h_subscription(F, X, rep):
         if hn:
             eff = lib.may_effects(F, hn)
             writes, _ = cell_writes(F, X)
-            upd = F.root_of(writes[0][0]) if writes else None
-            reach = _reaches(F, hn, upd)
+            upds = {F.root_of(w[0]) for w in writes}
+            reach = any(_reaches(F, hn, u) for u in upds)
             rep.ob(rid, reach, hn, "handler reaches the update function", how="call graph", detail="" if reach else "the block_added handler never updates the height")
-            dec = any(c2.name == "serde_json::from_value" and "BlockAddedNotification" in c2.full for g in F.group(hn) for c2 in g.calls)
+            dec = any("BlockAddedNotification" in c2.full and (c2.name == "serde_json::from_value" or any(c3.name == "serde_json::from_value" for g2 in F.group(c2.resolved or c2.name) for c3 in g2.calls))
+                      for g in F.group(hn) for c2 in g.calls)
             rep.ob(rid, dec, hn, "handler decodes BlockAddedNotification", how="serde_json::from_value::<BlockAddedNotification>", detail="" if dec else "handler does not decode the notification", nontrivial=False)
     # the init reply / hook registration also lists the htlc_accepted hook (C06 relies on it)
     hooks = [(b, c) for b in F.code_bodies() for c in b.calls if c.name == "cln_plugin::Builder::hook"]
@@ -254,6 +274,8 @@ def _reaches(F, root, target, seen=None):
     if root in seen:
         return False
     seen.add(root)
+    if root == target:
+        return True
     for b in F.group(root):
         for c in b.calls:
             callee = c.resolved or c.name
